@@ -2,6 +2,8 @@
 C06 — filters run container, service, route in order, each once, per request.
 -/
 import Restful.Lemmas.Chain
+import Restful.Model.Conc
+import Restful.Gen.Facts
 namespace Restful
 namespace Props
 open Serve
@@ -252,6 +254,14 @@ example :
       [(.cfilter 1, false), (.cfilter 2, false), (.errorWriter, false), (.cfilter 2, true), (.cfilter 1, true)] ∧
     Spec.c06Holds E cfg .dispatch sr404 (Spec.obsOf (Serve.serve E cfg .dispatch {} sr404)) = true := by
   decide
+
+/-- the concurrent half of "every request starts a fresh chain": a fact regenerated from the
+    sources — no serving entry point builds a slice by appending to a field of a shared object
+    (`allFilters` in `dispatch` is a fresh `make`), and serving never writes the registration state -/
+theorem C06_chain_is_fresh_fact :
+    Conc.reachableAliasAppends (Conc.analysis Gen.fnNames Gen.items Conc.servingEntries) = [] ∧
+    Conc.reachableWrites (Conc.analysis Gen.fnNames Gen.items Conc.servingEntries) = [] := by
+  decide +kernel
 
 end Props
 end Restful
